@@ -24,7 +24,7 @@ type dataset struct {
 	M     *model.Model
 	TLo   int64 // smallest / largest timestamp
 	THi   int64
-	Times []int64 // the distinct timestamps, ascending
+	Times []int64                      // the distinct timestamps, ascending
 	Tags  map[string]map[string]string // series key -> tags
 }
 
